@@ -233,14 +233,87 @@ package rcmgr
 //@ requires s.owner == nil && size >= 0 && allNonneg() && edgesOK(s)
 //@ loop 0 invariant 0 <= reserved && reserved <= len(s.edges) && idx0 == reserved && err == nil
 //@ loop 0 invariant forall j int :: 0 <= j && j < reserved ==> s.edges[j].rc.memory == old(s.edges[j].rc.memory) + size && !s.edges[j].done
-//@ loop 0 invariant forall r *resources :: r.memory == old(r.memory) || (exists j int :: 0 <= j && j < reserved && r == &s.edges[j].rc)
+//@ loop 0 invariant forall r *resources :: (r.memory == old(r.memory)) || (exists j int :: 0 <= j && j < reserved && r == &s.edges[j].rc)
 //@ loop 0 invariant allNonneg()
 //@ loop 1 invariant 0 <= idx1 && idx1 <= reserved && reserved <= len(s.edges) && err != nil
 //@ loop 1 invariant forall j int :: idx1 <= j && j < reserved ==> s.edges[j].rc.memory == old(s.edges[j].rc.memory) + size && !s.edges[j].done
-//@ loop 1 invariant forall r *resources :: r.memory == old(r.memory) || (exists j int :: idx1 <= j && j < reserved && r == &s.edges[j].rc)
+//@ loop 1 invariant forall r *resources :: (r.memory == old(r.memory)) || (exists j int :: idx1 <= j && j < reserved && r == &s.edges[j].rc)
 //@ loop 1 invariant allNonneg()
-//@ ensures result == nil ==> forall j int :: 0 <= j && j < len(s.edges) ==> s.edges[j].rc.memory == old(s.edges[j].rc.memory) + size
-//@ ensures result == nil ==> forall r *resources :: r.memory == old(r.memory) || (exists j int :: 0 <= j && j < len(s.edges) && r == &s.edges[j].rc)
+//@ loop 1 invariant (forall j int :: 0 <= j && j < len(s.edges) ==> !s.edges[j].done) ==> wraps(err, network.ErrResourceLimitExceeded)
+//@ ensures result == nil ==> forall j int :: 0 <= j && j < len(s.edges) ==> s.edges[j].rc.memory == old(s.edges[j].rc.memory) + size && !s.edges[j].done
+//@ ensures result == nil ==> forall r *resources :: (r.memory == old(r.memory)) || (exists j int :: 0 <= j && j < len(s.edges) && r == &s.edges[j].rc)
 //@ ensures result != nil ==> forall r *resources :: r.memory == old(r.memory)
+//@ ensures result != nil && (forall j int :: 0 <= j && j < len(s.edges) ==> !s.edges[j].done) ==> wraps(result, network.ErrResourceLimitExceeded)
 //@ ensures allNonneg()
 //@ modifies resources.memory
+
+//@ func (s *resourceScope) ReserveMemory
+//@ prop C03
+//@ requires s.owner == nil && size >= 0 && allNonneg() && edgesOK(s)
+//@ ensures result == nil ==> !s.done && s.rc.memory == old(s.rc.memory) + size &&
+//@         (forall j int :: 0 <= j && j < len(s.edges) ==> s.edges[j].rc.memory == old(s.edges[j].rc.memory) + size)
+//@ ensures result == nil ==> forall r *resources :: (r.memory == old(r.memory)) || r == &s.rc || (exists j int :: 0 <= j && j < len(s.edges) && r == &s.edges[j].rc)
+//@ ensures result != nil ==> forall r *resources :: r.memory == old(r.memory)
+//@ ensures result != nil && !s.done && (forall j int :: 0 <= j && j < len(s.edges) ==> !s.edges[j].done) ==> wraps(result, network.ErrResourceLimitExceeded)
+//@ ensures allNonneg()
+//@ modifies resources.memory
+
+//@ func (s *resourceScope) addStreamForEdges
+//@ prop C03
+//@ requires s.owner == nil && true && allNonneg() && edgesOK(s)
+//@ loop 0 invariant 0 <= reserved && reserved <= len(s.edges) && idx0 == reserved && err == nil
+//@ loop 0 invariant forall j int :: 0 <= j && j < reserved ==> s.edges[j].rc.nstreamsIn == old(s.edges[j].rc.nstreamsIn) + ite(dir == network.DirInbound, 1, 0) && s.edges[j].rc.nstreamsOut == old(s.edges[j].rc.nstreamsOut) + ite(dir == network.DirInbound, 0, 1) && !s.edges[j].done
+//@ loop 0 invariant forall r *resources :: (r.nstreamsIn == old(r.nstreamsIn) && r.nstreamsOut == old(r.nstreamsOut)) || (exists j int :: 0 <= j && j < reserved && r == &s.edges[j].rc)
+//@ loop 0 invariant allNonneg()
+//@ loop 1 invariant 0 <= idx1 && idx1 <= reserved && reserved <= len(s.edges) && err != nil
+//@ loop 1 invariant forall j int :: idx1 <= j && j < reserved ==> s.edges[j].rc.nstreamsIn == old(s.edges[j].rc.nstreamsIn) + ite(dir == network.DirInbound, 1, 0) && s.edges[j].rc.nstreamsOut == old(s.edges[j].rc.nstreamsOut) + ite(dir == network.DirInbound, 0, 1) && !s.edges[j].done
+//@ loop 1 invariant forall r *resources :: (r.nstreamsIn == old(r.nstreamsIn) && r.nstreamsOut == old(r.nstreamsOut)) || (exists j int :: idx1 <= j && j < reserved && r == &s.edges[j].rc)
+//@ loop 1 invariant allNonneg()
+//@ loop 1 invariant (forall j int :: 0 <= j && j < len(s.edges) ==> !s.edges[j].done) ==> wraps(err, network.ErrResourceLimitExceeded)
+//@ ensures result == nil ==> forall j int :: 0 <= j && j < len(s.edges) ==> s.edges[j].rc.nstreamsIn == old(s.edges[j].rc.nstreamsIn) + ite(dir == network.DirInbound, 1, 0) && s.edges[j].rc.nstreamsOut == old(s.edges[j].rc.nstreamsOut) + ite(dir == network.DirInbound, 0, 1) && !s.edges[j].done
+//@ ensures result == nil ==> forall r *resources :: (r.nstreamsIn == old(r.nstreamsIn) && r.nstreamsOut == old(r.nstreamsOut)) || (exists j int :: 0 <= j && j < len(s.edges) && r == &s.edges[j].rc)
+//@ ensures result != nil ==> forall r *resources :: r.nstreamsIn == old(r.nstreamsIn) && r.nstreamsOut == old(r.nstreamsOut)
+//@ ensures result != nil && (forall j int :: 0 <= j && j < len(s.edges) ==> !s.edges[j].done) ==> wraps(result, network.ErrResourceLimitExceeded)
+//@ ensures allNonneg()
+//@ modifies resources.nstreamsIn, resources.nstreamsOut
+
+//@ func (s *resourceScope) AddStream
+//@ prop C03
+//@ requires s.owner == nil && true && allNonneg() && edgesOK(s)
+//@ ensures result == nil ==> !s.done && s.rc.nstreamsIn == old(s.rc.nstreamsIn) + ite(dir == network.DirInbound, 1, 0) && s.rc.nstreamsOut == old(s.rc.nstreamsOut) + ite(dir == network.DirInbound, 0, 1) &&
+//@         (forall j int :: 0 <= j && j < len(s.edges) ==> s.edges[j].rc.nstreamsIn == old(s.edges[j].rc.nstreamsIn) + ite(dir == network.DirInbound, 1, 0) && s.edges[j].rc.nstreamsOut == old(s.edges[j].rc.nstreamsOut) + ite(dir == network.DirInbound, 0, 1))
+//@ ensures result == nil ==> forall r *resources :: (r.nstreamsIn == old(r.nstreamsIn) && r.nstreamsOut == old(r.nstreamsOut)) || r == &s.rc || (exists j int :: 0 <= j && j < len(s.edges) && r == &s.edges[j].rc)
+//@ ensures result != nil ==> forall r *resources :: r.nstreamsIn == old(r.nstreamsIn) && r.nstreamsOut == old(r.nstreamsOut)
+//@ ensures result != nil && !s.done && (forall j int :: 0 <= j && j < len(s.edges) ==> !s.edges[j].done) ==> wraps(result, network.ErrResourceLimitExceeded)
+//@ ensures allNonneg()
+//@ modifies resources.nstreamsIn, resources.nstreamsOut
+
+//@ func (s *resourceScope) addConnForEdges
+//@ prop C03
+//@ requires s.owner == nil && true && allNonneg() && edgesOK(s)
+//@ loop 0 invariant 0 <= reserved && reserved <= len(s.edges) && idx0 == reserved && err == nil
+//@ loop 0 invariant forall j int :: 0 <= j && j < reserved ==> s.edges[j].rc.nconnsIn == old(s.edges[j].rc.nconnsIn) + ite(dir == network.DirInbound, 1, 0) && s.edges[j].rc.nconnsOut == old(s.edges[j].rc.nconnsOut) + ite(dir == network.DirInbound, 0, 1) && s.edges[j].rc.nfd == old(s.edges[j].rc.nfd) + ite(usefd, 1, 0) && !s.edges[j].done
+//@ loop 0 invariant forall r *resources :: (r.nconnsIn == old(r.nconnsIn) && r.nconnsOut == old(r.nconnsOut) && r.nfd == old(r.nfd)) || (exists j int :: 0 <= j && j < reserved && r == &s.edges[j].rc)
+//@ loop 0 invariant allNonneg()
+//@ loop 1 invariant 0 <= idx1 && idx1 <= reserved && reserved <= len(s.edges) && err != nil
+//@ loop 1 invariant forall j int :: idx1 <= j && j < reserved ==> s.edges[j].rc.nconnsIn == old(s.edges[j].rc.nconnsIn) + ite(dir == network.DirInbound, 1, 0) && s.edges[j].rc.nconnsOut == old(s.edges[j].rc.nconnsOut) + ite(dir == network.DirInbound, 0, 1) && s.edges[j].rc.nfd == old(s.edges[j].rc.nfd) + ite(usefd, 1, 0) && !s.edges[j].done
+//@ loop 1 invariant forall r *resources :: (r.nconnsIn == old(r.nconnsIn) && r.nconnsOut == old(r.nconnsOut) && r.nfd == old(r.nfd)) || (exists j int :: idx1 <= j && j < reserved && r == &s.edges[j].rc)
+//@ loop 1 invariant allNonneg()
+//@ loop 1 invariant (forall j int :: 0 <= j && j < len(s.edges) ==> !s.edges[j].done) ==> wraps(err, network.ErrResourceLimitExceeded)
+//@ ensures result == nil ==> forall j int :: 0 <= j && j < len(s.edges) ==> s.edges[j].rc.nconnsIn == old(s.edges[j].rc.nconnsIn) + ite(dir == network.DirInbound, 1, 0) && s.edges[j].rc.nconnsOut == old(s.edges[j].rc.nconnsOut) + ite(dir == network.DirInbound, 0, 1) && s.edges[j].rc.nfd == old(s.edges[j].rc.nfd) + ite(usefd, 1, 0) && !s.edges[j].done
+//@ ensures result == nil ==> forall r *resources :: (r.nconnsIn == old(r.nconnsIn) && r.nconnsOut == old(r.nconnsOut) && r.nfd == old(r.nfd)) || (exists j int :: 0 <= j && j < len(s.edges) && r == &s.edges[j].rc)
+//@ ensures result != nil ==> forall r *resources :: r.nconnsIn == old(r.nconnsIn) && r.nconnsOut == old(r.nconnsOut) && r.nfd == old(r.nfd)
+//@ ensures result != nil && (forall j int :: 0 <= j && j < len(s.edges) ==> !s.edges[j].done) ==> wraps(result, network.ErrResourceLimitExceeded)
+//@ ensures allNonneg()
+//@ modifies resources.nconnsIn, resources.nconnsOut, resources.nfd
+
+//@ func (s *resourceScope) AddConn
+//@ prop C03
+//@ requires s.owner == nil && true && allNonneg() && edgesOK(s)
+//@ ensures result == nil ==> !s.done && s.rc.nconnsIn == old(s.rc.nconnsIn) + ite(dir == network.DirInbound, 1, 0) && s.rc.nconnsOut == old(s.rc.nconnsOut) + ite(dir == network.DirInbound, 0, 1) && s.rc.nfd == old(s.rc.nfd) + ite(usefd, 1, 0) &&
+//@         (forall j int :: 0 <= j && j < len(s.edges) ==> s.edges[j].rc.nconnsIn == old(s.edges[j].rc.nconnsIn) + ite(dir == network.DirInbound, 1, 0) && s.edges[j].rc.nconnsOut == old(s.edges[j].rc.nconnsOut) + ite(dir == network.DirInbound, 0, 1) && s.edges[j].rc.nfd == old(s.edges[j].rc.nfd) + ite(usefd, 1, 0))
+//@ ensures result == nil ==> forall r *resources :: (r.nconnsIn == old(r.nconnsIn) && r.nconnsOut == old(r.nconnsOut) && r.nfd == old(r.nfd)) || r == &s.rc || (exists j int :: 0 <= j && j < len(s.edges) && r == &s.edges[j].rc)
+//@ ensures result != nil ==> forall r *resources :: r.nconnsIn == old(r.nconnsIn) && r.nconnsOut == old(r.nconnsOut) && r.nfd == old(r.nfd)
+//@ ensures result != nil && !s.done && (forall j int :: 0 <= j && j < len(s.edges) ==> !s.edges[j].done) ==> wraps(result, network.ErrResourceLimitExceeded)
+//@ ensures allNonneg()
+//@ modifies resources.nconnsIn, resources.nconnsOut, resources.nfd
